@@ -65,6 +65,8 @@ theorem ysR_mode : ∀ (y : Ys) (s : St), (ysR y s).2.mode = s.mode
   | .tup l, s => by simp [ysR]; exact yslR_mode l s
   | .lst l, s => by simp [ysR]; exact yslR_mode l s
   | .dict _ l, s => by simp [ysR]; exact yslR_mode l s
+  | .sub _, s => by simp [ysR]
+  | .pval y, s => by simp only [ysR]; exact ysR_mode y s
 theorem yslR_mode : ∀ (l : YsL) (s : St), (yslR l s).2.mode = s.mode
   | .nil, s => by simp [yslR]
   | .cons y l, s => by
@@ -130,6 +132,12 @@ theorem resolveA_mode : ∀ (y : Ys) (s : St), (resolveA y s).2.mode = s.mode
   | .tup l, s => by simp [resolveA]; exact gatherA_mode l s
   | .lst l, s => by simp [resolveA]; exact gatherA_mode l s
   | .dict _ l, s => by simp [resolveA]; exact gatherA_mode l s
+  | .sub y, s => by simp only [resolveA]; exact resolveA_mode y s
+  | .pval y, s => by
+    unfold resolveA
+    cases hm : s.mode
+    · simp only [Bool.false_eq_true, if_false]; rw [resolveA_mode y s, hm]
+    · simp [hm]
 theorem gatherA_mode : ∀ (l : YsL) (s : St), (gatherA l s).2.mode = s.mode
   | .nil, s => by simp [gatherA]
   | .cons y l, s => by
@@ -206,6 +214,8 @@ theorem ysR_noB : ∀ (y : Ys) (s : St), y.noRaiseB = true → (ysR y s).1.noB =
   | .tup l, s, hn => by simp only [Ys.noRaiseB] at hn; simp only [ysR]; exact wrap_noB _ (yslR_noB l s hn)
   | .lst l, s, hn => by simp only [Ys.noRaiseB] at hn; simp only [ysR]; exact wrap_noB _ (yslR_noB l s hn)
   | .dict _ l, s, hn => by simp only [Ys.noRaiseB] at hn; simp only [ysR]; exact wrap_noB _ (yslR_noB l s hn)
+  | .sub _, _, _ => by simp [ysR, Out.noB, Err.isBase]
+  | .pval y, s, hn => by simp only [Ys.noRaiseB] at hn; simp only [ysR]; exact ysR_noB y s hn
 theorem yslR_noB : ∀ (l : YsL) (s : St), l.noRaiseB = true → (yslR l s).1.noB = true
   | .nil, _, _ => by simp [yslR, OutL.noB]
   | .cons y l, s, hn => by
@@ -277,6 +287,13 @@ theorem resolveA_noB : ∀ (y : Ys) (s : St), y.noRaiseB = true → (resolveA y 
   | .tup l, s, hn => by simp only [Ys.noRaiseB] at hn; simp only [resolveA]; exact wrap_noB _ (gatherA_noB l s hn)
   | .lst l, s, hn => by simp only [Ys.noRaiseB] at hn; simp only [resolveA]; exact wrap_noB _ (gatherA_noB l s hn)
   | .dict _ l, s, hn => by simp only [Ys.noRaiseB] at hn; simp only [resolveA]; exact wrap_noB _ (gatherA_noB l s hn)
+  | .sub y, s, hn => by simp only [Ys.noRaiseB] at hn; simp only [resolveA]; exact resolveA_noB y s hn
+  | .pval y, s, hn => by
+    simp only [Ys.noRaiseB] at hn
+    unfold resolveA
+    cases hm : s.mode
+    · simp only [Bool.false_eq_true, if_false]; exact resolveA_noB y s hn
+    · simp [Out.noB, Err.isBase]
 theorem gatherA_noB : ∀ (l : YsL) (s : St), l.noRaiseB = true → (gatherA l s).1.noB = true
   | .nil, _, _ => by simp [gatherA, OutL.noB]
   | .cons y l, s, hn => by
@@ -285,7 +302,7 @@ theorem gatherA_noB : ∀ (l : YsL) (s : St), l.noRaiseB = true → (gatherA l s
     exact combine_noB (resolveA_noB y s hn.1) (gatherA_noB l _ hn.2)
 end
 
-/-! ### asyncio evaluation = reference evaluation (no `result()`, no synchronous calls) -/
+/-! ### asyncio evaluation = reference evaluation (plain yields, no synchronous calls) -/
 
 theorem callA_fst (c : Call) (run : Bool → St → Out × St) (s : St) :
     ∃ st : St, st.mode = true ∧ (callA c run s).1 = (run c.kind.isGen st).1 := by
@@ -333,16 +350,16 @@ theorem SafeL.cons {y : Ys} {l : YsL} (hx : SafeL (.cons y l)) : SafeY y ∧ Saf
 
 mutual
 theorem bodyA_eq_bodyR : ∀ (p : Prog) (gen : Bool) (t : Nat) (env : List Val) (caught : Option Err) (i : Nat) (s s' : St),
-    s.mode = true → s'.mode = false → p.noRes = true → p.noSync = true → Safe p caught →
+    s.mode = true → s'.mode = false → p.plainY = true → p.noSync = true → Safe p caught →
     (bodyA gen t env caught i p s).1 = (bodyR gen t env caught i p s').1
   | .ret _, _, _, _, _, _, _, _, _, _, _, _, _ => by simp [bodyA, bodyR]
-  | .res _, _, _, _, _, _, _, _, _, _, hr, _, _ => by simp [Prog.noRes] at hr
+  | .res _, _, _, _, _, _, _, _, _, _, _, _, _ => by simp [bodyA, bodyR]
   | .raise _, _, _, _, _, _, _, _, _, _, _, _, _ => by simp [bodyA, bodyR]
   | .raiseB _, _, _, _, _, _, _, _, _, _, _, _, _ => by simp [bodyA, bodyR]
   | .reraise, _, _, _, _, _, _, _, _, _, _, _, _ => by simp [bodyA, bodyR]
   | .sync _ _ _ _, _, _, _, _, _, _, _, _, _, _, hs, _ => by simp [Prog.noSync] at hs
   | .yld hb y k h, gen, t, env, caught, i, s, s', hm, hm', hr, hs, hx => by
-    simp only [Prog.noRes, Prog.noSync, Bool.and_eq_true] at hr hs
+    simp only [Prog.plainY, Prog.noSync, Bool.and_eq_true] at hr hs
     obtain ⟨hxy, hxk, hxh⟩ := hx.yld
     unfold bodyA bodyR
     cases gen
@@ -369,14 +386,14 @@ theorem bodyA_eq_bodyR : ∀ (p : Prog) (gen : Bool) (t : Nat) (env : List Val) 
         · exact bodyA_eq_bodyR h _ _ _ _ _ _ _ (by simp [h1, hm]) (by simp [h2, hm']) hr.2 hs.2 hsafe
       | esc v => simp
 theorem resolveA_eq_ysR : ∀ (y : Ys) (s s' : St),
-    s.mode = true → s'.mode = false → y.noRes = true → y.noSync = true → SafeY y →
+    s.mode = true → s'.mode = false → y.plainY = true → y.noSync = true → SafeY y →
     (resolveA y s).1 = (ysR y s').1
   | .none, _, _, _, _, _, _, _ => by simp [resolveA, ysR]
   | .junk, _, _, _, _, _, _, _ => by simp [resolveA, ysR]
   | .const _, _, _, _, _, _, _, _ => by simp [resolveA, ysR]
   | .pconst _, s, _, hm, _, _, _, _ => by simp [resolveA, ysR, hm]
   | .task c p, s, s', hm, hm', hr, hs, hx => by
-    simp only [Ys.noRes, Ys.noSync] at hr hs
+    simp only [Ys.plainY, Ys.noSync] at hr hs
     unfold resolveA ysR
     simp only [hm, hm', if_true]
     obtain ⟨st, hst, heq⟩ := callA_fst c (fun g s' => bodyA g c.label [] none 0 p s') s
@@ -384,20 +401,22 @@ theorem resolveA_eq_ysR : ∀ (y : Ys) (s s' : St),
     simp
     exact bodyA_eq_bodyR p _ _ _ _ _ _ _ hst (by simp [hm']) hr hs hx.task
   | .tup l, s, s', hm, hm', hr, hs, hx => by
-    simp only [Ys.noRes, Ys.noSync] at hr hs
+    simp only [Ys.plainY, Ys.noSync] at hr hs
     simp [resolveA, ysR, gatherA_eq_yslR l s s' hm hm' hr hs (by simpa [SafeY, SafeL, Ys.excOnly, Ys.noRaiseB] using hx)]
   | .lst l, s, s', hm, hm', hr, hs, hx => by
-    simp only [Ys.noRes, Ys.noSync] at hr hs
+    simp only [Ys.plainY, Ys.noSync] at hr hs
     simp [resolveA, ysR, gatherA_eq_yslR l s s' hm hm' hr hs (by simpa [SafeY, SafeL, Ys.excOnly, Ys.noRaiseB] using hx)]
   | .dict _ l, s, s', hm, hm', hr, hs, hx => by
-    simp only [Ys.noRes, Ys.noSync] at hr hs
+    simp only [Ys.plainY, Ys.noSync] at hr hs
     simp [resolveA, ysR, gatherA_eq_yslR l s s' hm hm' hr hs (by simpa [SafeY, SafeL, Ys.excOnly, Ys.noRaiseB] using hx)]
+  | .sub _, _, _, _, _, hr, _, _ => by simp [Ys.plainY] at hr
+  | .pval _, _, _, _, _, hr, _, _ => by simp [Ys.plainY] at hr
 theorem gatherA_eq_yslR : ∀ (l : YsL) (s s' : St),
-    s.mode = true → s'.mode = false → l.noRes = true → l.noSync = true → SafeL l →
+    s.mode = true → s'.mode = false → l.plainY = true → l.noSync = true → SafeL l →
     (gatherA l s).1 = (yslR l s').1
   | .nil, _, _, _, _, _, _, _ => by simp [gatherA, yslR]
   | .cons y l, s, s', hm, hm', hr, hs, hx => by
-    simp only [YsL.noRes, YsL.noSync, Bool.and_eq_true] at hr hs
+    simp only [YsL.plainY, YsL.noSync, Bool.and_eq_true] at hr hs
     simp only [gatherA, yslR]
     rw [resolveA_eq_ysR y s s' hm hm' hr.1 hs.1 hx.cons.1]
     rw [gatherA_eq_yslR l _ (ysR y s').2 (by simp [hm]) (by rw [ysR_mode]; exact hm') hr.2 hs.2 hx.cons.2]
@@ -444,7 +463,7 @@ theorem Ext.logs {ok : Ev → Bool} {a : List Nat} {s s2 s' s2' : St}
   obtain ⟨l, e, o, f⟩ := h
   exact ⟨l, by rw [h1, h2, e], o, f⟩
 
-theorem Ext.dc {ok : Ev → Bool} {y : Ys} {s s1 : St} (h : Ext ok (Ys.labels y) s s1) : s1.dc y = true := by
+theorem Ext.dc {ok : Ev → Bool} {labs : List Nat} {s s1 : St} (h : Ext ok labs s s1) : s1.dc labs = true := by
   obtain ⟨l, e, _, f⟩ := h
   simp only [St.dc, St.finished, List.all_eq_true]
   intro t ht
@@ -525,24 +544,24 @@ theorem bodyR_good : ∀ (p : Prog) (gen : Bool) (t : Nat) (env : List Val) (cau
       rw [hR] at hf hx h2
       simp only at hf hx h2
       have hm1 : s1.mode = false := by rw [h2, hm]
-      have hd : s1.dc y = true := hx.dc
+      have hd : s1.dc (Ys.labelsR y) = true := hx.dc
       cases r with
       | ok v =>
         simp only [Bool.not_true, Bool.false_eq_true, if_false]
-        have hev : evOkR (.run t (i + 1) (s1.dc y) s1.mode (.ok v)) = true := by
+        have hev : evOkR (.run t (i + 1) (s1.dc (Ys.labelsR y)) s1.mode (.ok v)) = true := by
           simp [evOkR, dcOk, modeSeen, syncAllowedOk, noBad, hd, hm1]
-        obtain ⟨hf', hx'⟩ := bodyR_good k true t (env ++ [v]) caught (i + 1) (s1.emit (.run t (i + 1) (s1.dc y) s1.mode (.ok v)))
+        obtain ⟨hf', hx'⟩ := bodyR_good k true t (env ++ [v]) caught (i + 1) (s1.emit (.run t (i + 1) (s1.dc (Ys.labelsR y)) s1.mode (.ok v)))
           (by simp [hm1]) hc
         exact ⟨hf', ((hx.trans (Ext.emit s1 hev)).trans hx').weaken (by simp)⟩
       | err e =>
         simp only [Bool.not_true, Bool.false_eq_true, if_false]
         split
         · exact ⟨hf, (hx.trans (Ext.emitFin s1 t _ rfl)).weaken (by simp)⟩
-        · have hev : evOkR (.run t (i + 1) (s1.dc y) s1.mode (.err e)) = true := by
+        · have hev : evOkR (.run t (i + 1) (s1.dc (Ys.labelsR y)) s1.mode (.err e)) = true := by
             simp [evOkR, dcOk, modeSeen, syncAllowedOk, noBad, hd, hm1]
           have he : some e ≠ some Err.syncRefused := by
             intro hh; injection hh with hh; subst hh; simp [Out.fine] at hf
-          obtain ⟨hf', hx'⟩ := bodyR_good h true t env (some e) (i + 1) (s1.emit (.run t (i + 1) (s1.dc y) s1.mode (.err e)))
+          obtain ⟨hf', hx'⟩ := bodyR_good h true t env (some e) (i + 1) (s1.emit (.run t (i + 1) (s1.dc (Ys.labelsR y)) s1.mode (.err e)))
             (by simp [hm1]) he
           exact ⟨hf', ((hx.trans (Ext.emit s1 hev)).trans hx').weaken (by simp)⟩
       | esc v => simp [Out.fine] at hf
@@ -577,33 +596,35 @@ theorem bodyR_good : ∀ (p : Prog) (gen : Bool) (t : Nat) (env : List Val) (cau
         exact ⟨hf', (hx1.trans hx').weaken (by simp)⟩
     | esc v => simp [Out.fine] at hf
 theorem ysR_good : ∀ (y : Ys) (s : St), s.mode = false →
-    (ysR y s).1.fine = true ∧ Ext evOkR (Ys.labels y) s (ysR y s).2
-  | .none, s, _ => by simp only [ysR, Ys.labels]; exact ⟨rfl, Ext.refl _ s⟩
-  | .junk, s, _ => by simp only [ysR, Ys.labels]; exact ⟨rfl, Ext.refl _ s⟩
-  | .const _, s, _ => by simp only [ysR, Ys.labels]; exact ⟨rfl, Ext.refl _ s⟩
-  | .pconst _, s, _ => by simp only [ysR, Ys.labels]; exact ⟨rfl, Ext.refl _ s⟩
+    (ysR y s).1.fine = true ∧ Ext evOkR (Ys.labelsR y) s (ysR y s).2
+  | .none, s, _ => by simp only [ysR, Ys.labelsR]; exact ⟨rfl, Ext.refl _ s⟩
+  | .junk, s, _ => by simp only [ysR, Ys.labelsR]; exact ⟨rfl, Ext.refl _ s⟩
+  | .const _, s, _ => by simp only [ysR, Ys.labelsR]; exact ⟨rfl, Ext.refl _ s⟩
+  | .pconst _, s, _ => by simp only [ysR, Ys.labelsR]; exact ⟨rfl, Ext.refl _ s⟩
   | .task c p, s, hm => by
     unfold ysR
-    simp only [hm, Bool.false_eq_true, if_false, Ys.labels]
+    simp only [hm, Bool.false_eq_true, if_false, Ys.labelsR]
     have hst : evOkR (.start c.label false) = true := rfl
     obtain ⟨hf, hx⟩ := bodyR_good p c.kind.isGen c.label [] none 0 (s.emit (.start c.label false)) (by simp [hm]) (by simp)
     exact ⟨hf, ((Ext.emit s hst).trans hx).weaken (by simp)⟩
   | .tup l, s, hm => by
     obtain ⟨hf, hx⟩ := yslR_good l s hm
-    simp only [ysR, Ys.labels]; exact ⟨wrap_fine _ hf, hx⟩
+    simp only [ysR, Ys.labelsR]; exact ⟨wrap_fine _ hf, hx⟩
   | .lst l, s, hm => by
     obtain ⟨hf, hx⟩ := yslR_good l s hm
-    simp only [ysR, Ys.labels]; exact ⟨wrap_fine _ hf, hx⟩
+    simp only [ysR, Ys.labelsR]; exact ⟨wrap_fine _ hf, hx⟩
   | .dict _ l, s, hm => by
     obtain ⟨hf, hx⟩ := yslR_good l s hm
-    simp only [ysR, Ys.labels]; exact ⟨wrap_fine _ hf, hx⟩
+    simp only [ysR, Ys.labelsR]; exact ⟨wrap_fine _ hf, hx⟩
+  | .sub _, s, _ => by simp only [ysR, Ys.labelsR]; exact ⟨rfl, Ext.refl _ s⟩
+  | .pval y, s, hm => by simp only [ysR, Ys.labelsR]; exact ysR_good y s hm
 theorem yslR_good : ∀ (l : YsL) (s : St), s.mode = false →
-    (yslR l s).1.fine = true ∧ Ext evOkR (YsL.labels l) s (yslR l s).2
-  | .nil, s, _ => by simp only [yslR, YsL.labels]; exact ⟨rfl, Ext.refl _ s⟩
+    (yslR l s).1.fine = true ∧ Ext evOkR (YsL.labelsR l) s (yslR l s).2
+  | .nil, s, _ => by simp only [yslR, YsL.labelsR]; exact ⟨rfl, Ext.refl _ s⟩
   | .cons y l, s, hm => by
     obtain ⟨hf, hx⟩ := ysR_good y s hm
     obtain ⟨hf', hx'⟩ := yslR_good l (ysR y s).2 (by rw [ysR_mode, hm])
-    simp only [yslR, YsL.labels]
+    simp only [yslR, YsL.labelsR]
     exact ⟨combine_fine hf hf', hx.trans hx'⟩
 end
 
@@ -633,223 +654,89 @@ theorem callPre_ext (c : Call) (s : St) : Ext evOkA [] s (callPre c s) := by
 
 mutual
 theorem bodyA_good : ∀ (p : Prog) (gen : Bool) (t : Nat) (env : List Val) (caught : Option Err) (i : Nat) (s : St),
-    s.mode = true → p.noRes = true →
+    s.mode = true →
     (bodyA gen t env caught i p s).1.noEsc = true ∧ Ext evOkA [t] s (bodyA gen t env caught i p s).2
-  | .ret _, _, t, _, _, _, s, _, _ => by
+  | .ret _, _, t, _, _, _, s, _ => by
     simp only [bodyA]; exact ⟨rfl, Ext.emitFin s t _ rfl⟩
-  | .res _, _, _, _, _, _, _, _, hr => by simp [Prog.noRes] at hr
-  | .raise _, _, t, _, _, _, s, _, _ => by
+  | .res _, _, t, _, _, _, s, _ => by
     simp only [bodyA]; exact ⟨rfl, Ext.emitFin s t _ rfl⟩
-  | .raiseB _, _, t, _, _, _, s, _, _ => by
+  | .raise _, _, t, _, _, _, s, _ => by
     simp only [bodyA]; exact ⟨rfl, Ext.emitFin s t _ rfl⟩
-  | .reraise, _, t, _, _, _, s, _, _ => by
+  | .raiseB _, _, t, _, _, _, s, _ => by
     simp only [bodyA]; exact ⟨rfl, Ext.emitFin s t _ rfl⟩
-  | .yld hb y k h, gen, t, env, caught, i, s, hm, hr => by
-    simp only [Prog.noRes, Bool.and_eq_true] at hr
+  | .reraise, _, t, _, _, _, s, _ => by
+    simp only [bodyA]; exact ⟨rfl, Ext.emitFin s t _ rfl⟩
+  | .yld hb y k h, gen, t, env, caught, i, s, hm => by
     unfold bodyA
     cases gen
     · simp only [Bool.not_false, if_true]; exact ⟨rfl, Ext.emitFin s t _ rfl⟩
-    · obtain ⟨hf, hx⟩ := resolveA_good y s hm hr.1.1
+    · obtain ⟨hf, hx⟩ := resolveA_good y s hm
       have h2 := resolveA_mode y s
       rcases hR : resolveA y s with ⟨r, s1⟩
       rw [hR] at hf hx h2
       simp only at hf hx h2
       have hm1 : s1.mode = true := by rw [h2, hm]
-      have hd : s1.dc y = true := hx.dc
+      have hd : s1.dc (Ys.labelsA y) = true := hx.dc
       cases r with
       | ok v =>
         simp only [Bool.not_true, Bool.false_eq_true, if_false]
-        have hev : evOkA (.run t (i + 1) (s1.dc y) s1.mode (.ok v)) = true := by
+        have hev : evOkA (.run t (i + 1) (s1.dc (Ys.labelsA y)) s1.mode (.ok v)) = true := by
           simp [evOkA, dcOk, modeSeen, syncRefusedOk, noBad, hd, hm1]
-        obtain ⟨hf', hx'⟩ := bodyA_good k true t (env ++ [v]) caught (i + 1) (s1.emit (.run t (i + 1) (s1.dc y) s1.mode (.ok v)))
-          (by simp [hm1]) hr.1.2
+        obtain ⟨hf', hx'⟩ := bodyA_good k true t (env ++ [v]) caught (i + 1) (s1.emit (.run t (i + 1) (s1.dc (Ys.labelsA y)) s1.mode (.ok v)))
+          (by simp [hm1])
         exact ⟨hf', ((hx.trans (Ext.emit s1 hev)).trans hx').weaken (by simp)⟩
       | err e =>
         simp only [Bool.not_true, Bool.false_eq_true, if_false]
         split
         · exact ⟨rfl, (hx.trans (Ext.emitFin s1 t _ rfl)).weaken (by simp)⟩
-        · have hev : evOkA (.run t (i + 1) (s1.dc y) s1.mode (.err e)) = true := by
+        · have hev : evOkA (.run t (i + 1) (s1.dc (Ys.labelsA y)) s1.mode (.err e)) = true := by
             simp [evOkA, dcOk, modeSeen, syncRefusedOk, noBad, hd, hm1]
-          obtain ⟨hf', hx'⟩ := bodyA_good h true t env (some e) (i + 1) (s1.emit (.run t (i + 1) (s1.dc y) s1.mode (.err e)))
-            (by simp [hm1]) hr.2
+          obtain ⟨hf', hx'⟩ := bodyA_good h true t env (some e) (i + 1) (s1.emit (.run t (i + 1) (s1.dc (Ys.labelsA y)) s1.mode (.err e)))
+            (by simp [hm1])
           exact ⟨hf', ((hx.trans (Ext.emit s1 hev)).trans hx').weaken (by simp)⟩
       | esc v => simp [Out.noEsc] at hf
-  | .sync c child k h, gen, t, env, caught, i, s, hm, hr => by
-    simp only [Prog.noRes, Bool.and_eq_true] at hr
+  | .sync c child k h, gen, t, env, caught, i, s, hm => by
     unfold bodyA
     simp only [hm, if_true, Err.isBase, Bool.false_eq_true, if_false]
     have hev : evOkA (.syncX t (.err .syncRefused)) = true := by
       simp [evOkA, dcOk, modeSeen, syncRefusedOk, noBad]
-    obtain ⟨hf', hx'⟩ := bodyA_good h gen t env (some .syncRefused) i (s.emit (.syncX t (.err .syncRefused))) (by simp [hm]) hr.2
+    obtain ⟨hf', hx'⟩ := bodyA_good h gen t env (some .syncRefused) i (s.emit (.syncX t (.err .syncRefused))) (by simp [hm])
     exact ⟨hf', ((Ext.emit s hev).trans hx').weaken (by simp)⟩
-theorem resolveA_good : ∀ (y : Ys) (s : St), s.mode = true → y.noRes = true →
-    (resolveA y s).1.noEsc = true ∧ Ext evOkA (Ys.labels y) s (resolveA y s).2
-  | .none, s, _, _ => by simp only [resolveA, Ys.labels]; exact ⟨rfl, Ext.refl _ s⟩
-  | .junk, s, _, _ => by simp only [resolveA, Ys.labels]; exact ⟨rfl, Ext.refl _ s⟩
-  | .const _, s, _, _ => by simp only [resolveA, Ys.labels]; exact ⟨rfl, Ext.refl _ s⟩
-  | .pconst _, s, hm, _ => by
-    simp only [resolveA, Ys.labels, hm, if_true]
+theorem resolveA_good : ∀ (y : Ys) (s : St), s.mode = true →
+    (resolveA y s).1.noEsc = true ∧ Ext evOkA (Ys.labelsA y) s (resolveA y s).2
+  | .none, s, _ => by simp only [resolveA, Ys.labelsA]; exact ⟨rfl, Ext.refl _ s⟩
+  | .junk, s, _ => by simp only [resolveA, Ys.labelsA]; exact ⟨rfl, Ext.refl _ s⟩
+  | .const _, s, _ => by simp only [resolveA, Ys.labelsA]; exact ⟨rfl, Ext.refl _ s⟩
+  | .pconst _, s, hm => by
+    simp only [resolveA, Ys.labelsA, hm, if_true]
     exact ⟨rfl, (Ext.refl evOkA s).logs rfl rfl⟩
-  | .task c p, s, hm, hr => by
-    simp only [Ys.noRes] at hr
+  | .task c p, s, hm => by
     unfold resolveA
-    simp only [hm, if_true, Ys.labels]
+    simp only [hm, if_true, Ys.labelsA]
     rw [callA_eq]
-    obtain ⟨hf, hx⟩ := bodyA_good p c.kind.isGen c.label [] none 0 (callPre c s) (by simp) hr
+    obtain ⟨hf, hx⟩ := bodyA_good p c.kind.isGen c.label [] none 0 (callPre c s) (by simp)
     exact ⟨hf, (((callPre_ext c s).trans hx).logs rfl rfl).weaken (by simp)⟩
-  | .tup l, s, hm, hr => by
-    simp only [Ys.noRes] at hr
-    obtain ⟨hf, hx⟩ := gatherA_good l s hm hr
-    simp only [resolveA, Ys.labels]; exact ⟨wrap_noEsc _ hf, hx⟩
-  | .lst l, s, hm, hr => by
-    simp only [Ys.noRes] at hr
-    obtain ⟨hf, hx⟩ := gatherA_good l s hm hr
-    simp only [resolveA, Ys.labels]; exact ⟨wrap_noEsc _ hf, hx⟩
-  | .dict _ l, s, hm, hr => by
-    simp only [Ys.noRes] at hr
-    obtain ⟨hf, hx⟩ := gatherA_good l s hm hr
-    simp only [resolveA, Ys.labels]; exact ⟨wrap_noEsc _ hf, hx⟩
-theorem gatherA_good : ∀ (l : YsL) (s : St), s.mode = true → l.noRes = true →
-    (gatherA l s).1.noEsc = true ∧ Ext evOkA (YsL.labels l) s (gatherA l s).2
-  | .nil, s, _, _ => by simp only [gatherA, YsL.labels]; exact ⟨rfl, Ext.refl _ s⟩
-  | .cons y l, s, hm, hr => by
-    simp only [YsL.noRes, Bool.and_eq_true] at hr
-    obtain ⟨hf, hx⟩ := resolveA_good y s hm hr.1
-    obtain ⟨hf', hx'⟩ := gatherA_good l { (resolveA y s).2 with mode := s.mode } hm hr.2
-    simp only [gatherA, YsL.labels]
+  | .tup l, s, hm => by
+    obtain ⟨hf, hx⟩ := gatherA_good l s hm
+    simp only [resolveA, Ys.labelsA]; exact ⟨wrap_noEsc _ hf, hx⟩
+  | .lst l, s, hm => by
+    obtain ⟨hf, hx⟩ := gatherA_good l s hm
+    simp only [resolveA, Ys.labelsA]; exact ⟨wrap_noEsc _ hf, hx⟩
+  | .dict _ l, s, hm => by
+    obtain ⟨hf, hx⟩ := gatherA_good l s hm
+    simp only [resolveA, Ys.labelsA]; exact ⟨wrap_noEsc _ hf, hx⟩
+  | .sub y, s, hm => by
+    simp only [resolveA, Ys.labelsA]; exact resolveA_good y s hm
+  | .pval _, s, hm => by
+    simp only [resolveA, Ys.labelsA, hm, if_true]; exact ⟨rfl, Ext.refl _ s⟩
+theorem gatherA_good : ∀ (l : YsL) (s : St), s.mode = true →
+    (gatherA l s).1.noEsc = true ∧ Ext evOkA (YsL.labelsA l) s (gatherA l s).2
+  | .nil, s, _ => by simp only [gatherA, YsL.labelsA]; exact ⟨rfl, Ext.refl _ s⟩
+  | .cons y l, s, hm => by
+    obtain ⟨hf, hx⟩ := resolveA_good y s hm
+    obtain ⟨hf', hx'⟩ := gatherA_good l { (resolveA y s).2 with mode := s.mode } hm
+    simp only [gatherA, YsL.labelsA]
     exact ⟨combine_noEsc hf hf', (hx.logs rfl rfl).trans (hx'.logs rfl rfl)⟩
-end
-
-/-! ### asyncio evaluation = reference evaluation whenever the asyncio run attempts no synchronous call -/
-
-theorem emit_nSync (s : St) (e : Ev) : (s.emit e).nSync = s.nSync + (if isSyncX e then 1 else 0) := by
-  simp only [St.nSync, St.emit, List.countP_cons]
-
-@[simp] theorem exitMode_nSync (tok : Bool) (s : St) : (exitMode tok s).nSync = s.nSync := rfl
-@[simp] theorem setMode_nSync (m : Bool) (s : St) : ({ s with mode := m } : St).nSync = s.nSync := rfl
-
-theorem callPre_nSync (c : Call) (s : St) : (callPre c s).nSync = s.nSync := by
-  unfold callPre
-  cases c.afn <;> cases (c.kind == Kind.proxy) <;> simp [enterMode, exitMode, St.emit, St.nSync, isSyncX]
-
-mutual
-theorem bodyA_sem : ∀ (p : Prog) (gen : Bool) (t : Nat) (env : List Val) (caught : Option Err) (i : Nat) (s s' : St),
-    s.mode = true → s'.mode = false → p.noRes = true → Safe p caught →
-    (bodyA gen t env caught i p s).2.nSync = s.nSync →
-    (bodyA gen t env caught i p s).1 = (bodyR gen t env caught i p s').1
-  | .ret _, _, _, _, _, _, _, _, _, _, _, _, _ => by simp [bodyA, bodyR]
-  | .res _, _, _, _, _, _, _, _, _, _, hr, _, _ => by simp [Prog.noRes] at hr
-  | .raise _, _, _, _, _, _, _, _, _, _, _, _, _ => by simp [bodyA, bodyR]
-  | .raiseB _, _, _, _, _, _, _, _, _, _, _, _, _ => by simp [bodyA, bodyR]
-  | .reraise, _, _, _, _, _, _, _, _, _, _, _, _ => by simp [bodyA, bodyR]
-  | .sync c child k h, gen, t, env, caught, i, s, s', hm, _, hr, _, hn => by
-    exfalso
-    simp only [Prog.noRes, Bool.and_eq_true] at hr
-    unfold bodyA at hn
-    simp only [hm, if_true, Err.isBase, Bool.false_eq_true, if_false] at hn
-    have hx := (bodyA_good h gen t env (some .syncRefused) i (s.emit (.syncX t (.err .syncRefused))) (by simp [hm]) hr.2).2
-    have hle := hx.nSync_le
-    rw [emit_nSync] at hle
-    simp only [isSyncX, if_true] at hle
-    omega
-  | .yld hb y k h, gen, t, env, caught, i, s, s', hm, hm', hr, hx, hn => by
-    simp only [Prog.noRes, Bool.and_eq_true] at hr
-    obtain ⟨hxy, hxk, hxh⟩ := hx.yld
-    unfold bodyA bodyR
-    unfold bodyA at hn
-    cases gen
-    · simp
-    · have hgy := (resolveA_good y s hm hr.1.1).2.nSync_le
-      have h1 := resolveA_mode y s
-      have h2 := ysR_mode y s'
-      have hy := resolveA_sem y s s' hm hm' hr.1.1 hxy
-      have hnb := fun hn => resolveA_noB y s hn
-      rcases hA : resolveA y s with ⟨r, s1⟩
-      rcases hR : ysR y s' with ⟨r', s1'⟩
-      rw [hA] at hy h1 hgy hn hnb
-      rw [hR] at hy h2
-      simp only at hy h1 h2 hgy
-      have hm1 : s1.mode = true := by rw [h1, hm]
-      cases r with
-      | ok v =>
-        simp only [Bool.not_true, Bool.false_eq_true, if_false] at hn ⊢
-        have hgk := (bodyA_good k true t (env ++ [v]) caught (i + 1) (s1.emit (.run t (i + 1) (s1.dc y) s1.mode (.ok v)))
-          (by simp [hm1]) hr.1.2).2.nSync_le
-        rw [emit_nSync] at hgk
-        simp only [isSyncX, Bool.false_eq_true, if_false, Nat.add_zero] at hgk
-        have hy' := hy (by omega)
-        subst hy'
-        exact bodyA_sem k _ _ _ _ _ _ _ (by simp [hm1]) (by simp [h2, hm']) hr.1.2 hxk
-          (by rw [emit_nSync]; simp only [isSyncX, Bool.false_eq_true, if_false, Nat.add_zero]; omega)
-      | err e =>
-        obtain ⟨hag, hsafe⟩ := hxh e (fun hn' => by simpa [Out.noB] using hnb hn')
-        simp only [Bool.not_true, Bool.false_eq_true, if_false] at hn ⊢
-        by_cases hbase : e.isBase = true
-        · have hhb : hb = false := by simpa [hbase] using hag
-          subst hhb
-          simp only [hbase, if_true] at hn ⊢
-          rw [emit_nSync] at hn
-          simp only [isSyncX, Bool.false_eq_true, if_false, Nat.add_zero] at hn
-          have hy' := hy (by omega)
-          subst hy'
-          simp [hbase]
-        · have hb0 : e.isBase = false := by simpa using hbase
-          simp only [hb0, Bool.false_eq_true, if_false, Bool.false_and] at hn ⊢
-          have hgk := (bodyA_good h true t env (some e) (i + 1) (s1.emit (.run t (i + 1) (s1.dc y) s1.mode (.err e)))
-            (by simp [hm1]) hr.2).2.nSync_le
-          rw [emit_nSync] at hgk
-          simp only [isSyncX, Bool.false_eq_true, if_false, Nat.add_zero] at hgk
-          have hy' := hy (by omega)
-          subst hy'
-          simp only [hb0, Bool.false_eq_true, if_false, Bool.false_and]
-          exact bodyA_sem h _ _ _ _ _ _ _ (by simp [hm1]) (by simp [h2, hm']) hr.2 hsafe
-            (by rw [emit_nSync]; simp only [isSyncX, Bool.false_eq_true, if_false, Nat.add_zero]; omega)
-      | esc v =>
-        simp only [Bool.not_true, Bool.false_eq_true, if_false] at hn ⊢
-        have hy' := hy (by omega)
-        subst hy'
-        rfl
-theorem resolveA_sem : ∀ (y : Ys) (s s' : St),
-    s.mode = true → s'.mode = false → y.noRes = true → SafeY y →
-    (resolveA y s).2.nSync = s.nSync → (resolveA y s).1 = (ysR y s').1
-  | .none, _, _, _, _, _, _, _ => by simp [resolveA, ysR]
-  | .junk, _, _, _, _, _, _, _ => by simp [resolveA, ysR]
-  | .const _, _, _, _, _, _, _, _ => by simp [resolveA, ysR]
-  | .pconst _, s, _, hm, _, _, _, _ => by simp [resolveA, ysR, hm]
-  | .task c p, s, s', hm, hm', hr, hx, hn => by
-    simp only [Ys.noRes] at hr
-    unfold resolveA at hn ⊢
-    unfold ysR
-    simp only [hm, hm', if_true, Bool.false_eq_true, if_false] at hn ⊢
-    rw [callA_eq] at hn ⊢
-    simp only [exitMode_nSync] at hn
-    exact bodyA_sem p _ _ _ _ _ _ _ (by simp) (by simp [hm']) hr hx.task (by rw [callPre_nSync]; exact hn)
-  | .tup l, s, s', hm, hm', hr, hx, hn => by
-    simp only [Ys.noRes] at hr
-    simp only [resolveA] at hn
-    simp [resolveA, ysR, gatherA_sem l s s' hm hm' hr (by simpa [SafeY, SafeL, Ys.excOnly, Ys.noRaiseB] using hx) hn]
-  | .lst l, s, s', hm, hm', hr, hx, hn => by
-    simp only [Ys.noRes] at hr
-    simp only [resolveA] at hn
-    simp [resolveA, ysR, gatherA_sem l s s' hm hm' hr (by simpa [SafeY, SafeL, Ys.excOnly, Ys.noRaiseB] using hx) hn]
-  | .dict _ l, s, s', hm, hm', hr, hx, hn => by
-    simp only [Ys.noRes] at hr
-    simp only [resolveA] at hn
-    simp [resolveA, ysR, gatherA_sem l s s' hm hm' hr (by simpa [SafeY, SafeL, Ys.excOnly, Ys.noRaiseB] using hx) hn]
-theorem gatherA_sem : ∀ (l : YsL) (s s' : St),
-    s.mode = true → s'.mode = false → l.noRes = true → SafeL l →
-    (gatherA l s).2.nSync = s.nSync → (gatherA l s).1 = (yslR l s').1
-  | .nil, _, _, _, _, _, _, _ => by simp [gatherA, yslR]
-  | .cons y l, s, s', hm, hm', hr, hx, hn => by
-    simp only [YsL.noRes, Bool.and_eq_true] at hr
-    simp only [gatherA] at hn
-    simp only [gatherA, yslR]
-    have hg1 := (resolveA_good y s hm hr.1).2.nSync_le
-    have hg2 := (gatherA_good l { (resolveA y s).2 with mode := s.mode } hm hr.2).2.nSync_le
-    simp only [setMode_nSync] at hg2
-    rw [resolveA_sem y s s' hm hm' hr.1 hx.cons.1 (by omega)]
-    rw [gatherA_sem l { (resolveA y s).2 with mode := s.mode } (ysR y s').2 hm (by rw [ysR_mode]; exact hm') hr.2 hx.cons.2
-      (by simp only [setMode_nSync]; omega)]
 end
 
 end AsynqModel.Asyncio
